@@ -223,6 +223,13 @@ def topologies():
     return res
 
 
+def more_topologies():
+    """meshes on which elements, boundary, interfaces and a sub-topology all have different numbers of elements (nested stream)"""
+    res = []
+    topo, geom = mesh.rectilinear([3]); res.append(('line3', topo, geom))
+    return res
+
+
 def integral_case(rng, tname, topo, geom, poly=True):
     """a small integral / sample array with field arguments u, v (ndofs,) and scalar w.
     Returns (tag, integrand, finish, pool): `finish(integrand)` binds it to the topology (integral or sample)."""
@@ -301,11 +308,12 @@ class Nest:
     w<i> (scalar) and the shared, never replaced arguments y (field) and c (scalar); `children` maps an own argument to
     (node, 'inside' | 'outside'): the argument is replaced by the child's array inside the integrand resp. around the integral"""
 
-    def __init__(self, ident, g, finish, kind, own):
+    def __init__(self, ident, g, finish, kind, own, finish_uniform=None):
         self.ident = ident; self.g = g; self.finish = finish; self.kind = kind; self.own = own; self.children = {}
+        self.finish_uniform = finish_uniform or finish      # the same node as an integral over the whole topology (root-cause variants)
 
-    def component(self):
-        return self.finish(self.g)
+    def component(self, uniform=False):
+        return (self.finish_uniform if uniform else self.finish)(self.g)
 
     def nodes_postorder(self):
         for ch, where in self.children.values():
@@ -328,14 +336,16 @@ class Nest:
         """some integral is replaced, from outside, by an array that contains an integral"""
         return any((where == 'outside' and self.kind != 'plain' and ch.contains_integral()) or ch.has_outside_by_integral() for ch, where in self.children.values())
 
-    def build(self, rng, force_inside=False):
+    def build(self, rng, force_inside=False, uniform=False):
+        """the nested array; `force_inside`: every replacement inside its integrand, `uniform`: every integral over the whole topology
+        (variants that are equal by the property resp. of the same nesting structure, used to name the root cause of a failure)"""
         g = self.g
-        ins = [(a, ch.build(rng, force_inside)) for a, (ch, where) in self.children.items() if where == 'inside' or force_inside or self.kind == 'plain']
-        outs = [(a, ch.build(rng, force_inside)) for a, (ch, where) in self.children.items() if not (where == 'inside' or force_inside or self.kind == 'plain')]
+        ins = [(a, ch.build(rng, force_inside, uniform)) for a, (ch, where) in self.children.items() if where == 'inside' or force_inside or self.kind == 'plain']
+        outs = [(a, ch.build(rng, force_inside, uniform)) for a, (ch, where) in self.children.items() if not (where == 'inside' or force_inside or self.kind == 'plain')]
         sig = lambda k: self.own[k]
         if ins:
             g = function.replace_arguments(g, spell(rng, ins, sig)[1])
-        A = self.finish(g)
+        A = (self.finish_uniform if uniform else self.finish)(g)
         if outs:
             A = function.replace_arguments(A, spell(rng, outs, sig)[1])
         return A
@@ -360,7 +370,7 @@ def nested_case(rng, tname, topo, geom, depth, p_inside=.75, friendly=False):
     def domain():
         kinds = ['integral'] * 3 + ['sample']      # lowered without Transform* nodes: within reach of the Lean engine
         if not friendly:
-            kinds += ['boundary', 'subtopo', 'boundary', 'subtopo'] + (['interfaces'] * 2 if len(topo.interfaces) else [])
+            kinds += ['boundary', 'subtopo'] * 3 + (['interfaces'] * 3 if len(topo.interfaces) else [])
         kind = rng.choice(kinds)
         degree = rng.choice([1, 2, 3])
         if kind == 'integral': return kind, lambda h: topo.integral(h * J, degree=degree)
@@ -403,7 +413,7 @@ def nested_case(rng, tname, topo, geom, depth, p_inside=.75, friendly=False):
                 s = s + (function.grad(u, geom) * function.grad(rng.choice([u, y]), geom)).sum(-1)
             g = s * basis if shape else s
             kind, finish = domain()
-            nd = Nest(i, g, finish, kind, own)
+            nd = Nest(i, g, finish, kind, own, finish_uniform=lambda h: topo.integral(h * J, degree=2))
         if not leaf:
             used = [a for a in (un, wn) if a in nd.g.arguments]
             rng.shuffle(used)
